@@ -217,6 +217,9 @@ func tokPolicy(label string) policy.Policy {
 	case "stars": // runs of wildcards, escaped and not
 		return policy.MustConstruct(policy.Like(".a", "a**b"), policy.Like(".b", "a***b"), policy.Like(".c", "****"), policy.Not(policy.Like(".d", `*\***\*`)),
 			policy.Any(".l", policy.Like(".", `a\****b*****`)), policy.Like(".e", `\***`))
+	case "quoted-selectors": // quoted field names holding escaped quotes, dots, brackets, question marks, backslashes
+		return policy.MustConstruct(policy.Equal(`.["a\".b"]`, literal.Int(1)), policy.Equal(`.meta["x\"]["y"]`, literal.Int(2)), policy.Like(`.["say \"hi\""]`, "h*"),
+			policy.Any(`.["l[0]"]?`, policy.Equal(`.["\"?"]`, literal.Int(3))), policy.Not(policy.Equal(`.["a.b"]["c\"[0]\"."]`, literal.Int(4))))
 	case "ordering-non-numbers": // the constructors take any literal on the right of an ordering operator
 		m := nMap(kv{"k", nInt(1)})
 		return policy.MustConstruct(policy.GreaterThan(".name", literal.String("m")), policy.LessThanOrEqual(".b", nBool(true)), policy.GreaterThanOrEqual(".c", literal.Null()),
@@ -281,7 +284,7 @@ func dlgOptDefs() []optDef {
 		{"sub", []string{"iss", "undef", "other", "root", "nokey"}}, // "root": built with delegation.Root (subject = issuer); "nokey": a DID that parses but holds no usable key
 		{"aud", []string{"other", "self", "nokey"}},
 		{"cmd", tokCommandLabels},
-		{"pol", []string{"empty", "eq", "nested", "int53max", "int53over", "values", "stars", "ordering-non-numbers"}},
+		{"pol", []string{"empty", "eq", "nested", "int53max", "int53over", "values", "stars", "ordering-non-numbers", "quoted-selectors"}},
 		{"nbf", timeLabels},
 		{"exp", timeLabels},
 		{"meta", metaLabels()},
